@@ -116,8 +116,51 @@ func (g *detGen) closure() *Node {
 	return L(A("let"), L(binds...), L(A("lambda"), L(A("x")), Call("list", append([]*Node{A("x")}, sum...)...)))
 }
 
+// partial is a partially applied function: its rendering lists the arguments
+// bound so far.
+func (g *detGen) partial() *Node {
+	n := g.r.Range(3, 7)
+	var formals, args []*Node
+	for i := 0; i < n; i++ {
+		formals = append(formals, A(g.sym("pa")))
+	}
+	k := g.r.Range(2, n-1)
+	for i := 0; i < k; i++ {
+		args = append(args, g.scalar())
+	}
+	// shuffle the formal names so that declaration order is not sorted order
+	for i := len(formals) - 1; i > 0; i-- {
+		j := g.r.Intn(i + 1)
+		formals[i], formals[j] = formals[j], formals[i]
+	}
+	return L(append([]*Node{A("funcall"), L(A("lambda"), L(formals...), Call("list", formals[0], formals[1]))}, args...)...)
+}
+
+// jsonMap is a map decoded from JSON text (a different map implementation).
+func (g *detGen) jsonMap() *Node {
+	n := g.r.Range(4, 11)
+	var parts []string
+	seen := map[string]bool{}
+	for i := 0; i < n; i++ {
+		k := fmt.Sprintf("j%02d", g.r.Intn(60))
+		if seen[k] {
+			continue
+		}
+		seen[k] = true
+		parts = append(parts, fmt.Sprintf("%q: %s", k, PickStr(g.r, []string{"1", "\"s\"", "[1,2]", "null", "true", "{\"z\":1,\"a\":2,\"m\":3}", "2.5"})))
+	}
+	return Call("json:load-string", Str("{"+strings.Join(parts, ", ")+"}"))
+}
+
 func (g *detGen) value(d int) *Node {
-	switch g.r.Pick([]int{6, 3, 2, 2, 1}) {
+	switch g.r.Pick([]int{6, 3, 2, 2, 1, 0, 3}) {
+	case 5: // not generated: ELPS has no partial application, the call only errors
+		return g.partial()
+	case 6:
+		if g.r.Bool() {
+			return Call("keys", g.jsonMap())
+		}
+		return g.jsonMap()
 	case 0:
 		return g.mapExpr(d)
 	case 1:
